@@ -24,11 +24,23 @@ import (
 )
 
 func applyList(l dom.ListBuilder, idxes []int) dom.ContainerBuilder {
+	// node that is already present at given index (if any) is reused as long as it is of expected type,
+	// so that subsequent modifications of the same list item do not discard previous ones.
+	var x dom.Node
+	if idxes[0] < l.Size() {
+		x = l.Items()[idxes[0]]
+	}
 	if len(idxes) == 1 {
+		if x != nil && x.IsContainer() {
+			return x.(dom.ContainerBuilder)
+		}
 		c := dom.Builder().Container()
 		l.Set(uint(idxes[0]), c)
 		return c
 	} else {
+		if x != nil && x.IsList() {
+			return applyList(x.(dom.ListBuilder), idxes[1:])
+		}
 		sub := dom.ListNode()
 		l.Set(uint(idxes[0]), sub)
 		return applyList(sub, idxes[1:])
